@@ -284,6 +284,118 @@ fn check(pattern: &str, re: &regex::bytes::Regex, input: &[u8], mode: u32, multi
     None
 }
 
+/// C16 ("a per-file limit of N matches yields exactly the first N matching lines plus the trailing context they
+/// are entitled to"): `-n -m N -A a` on the Standard printer (mode 0) and `--json -m N -A a` (mode 3)
+fn check_limit(pattern: &str, re: &regex::bytes::Regex, input: &[u8], json: bool, multiline: bool, n: u64, a: usize) -> Option<String> {
+    if re.find_iter(input).any(|m| input[m.start()..m.end()].contains(&b'\n')) { return None; }
+    let m = matcher(pattern, multiline)?;
+    let mut searcher = SearcherBuilder::new().line_number(true).multi_line(multiline).after_context(a).build();
+    let ls = lines_of(input);
+    // expected records: (kind, line number): 'M' match, 'C' context, 'S' separator
+    let mut want: Vec<(char, u64)> = vec![];
+    let mut matches = 0u64;
+    let mut last_printed: Option<usize> = None;
+    let mut since_match = usize::MAX; // lines since the last printed match
+    for (i, l) in ls.iter().enumerate() {
+        let sel = re.is_match(&input[l.body.0..l.body.1]);
+        if sel {
+            if matches == n {
+                // the limit is reached: a matching line inside the trailing context window of the N-th match is
+                // still printed (as a match line), but it neither extends the window nor counts (the unedited
+                // test standard::tests::max_matches_context pins this reading of "trailing context")
+                if since_match < a { want.push(('M', l.number)); last_printed = Some(i); since_match += 1; continue; }
+                break;
+            }
+            if let Some(p) = last_printed { if p + 1 != i && a > 0 { want.push(('S', 0)); } }
+            want.push(('M', l.number));
+            matches += 1;
+            last_printed = Some(i);
+            since_match = 0;
+        } else if since_match < a {
+            want.push(('C', l.number));
+            last_printed = Some(i);
+            since_match += 1;
+        } else {
+            since_match = usize::MAX;
+            if matches == n { break; }
+        }
+    }
+    let got: Vec<(char, u64)> = if json {
+        let mut p = JSONBuilder::new().max_matches(Some(n)).build(vec![]);
+        if searcher.search_slice(&m, input, p.sink(&m)).is_err() { return Some("search failed".into()); }
+        let out = p.into_inner();
+        let text = String::from_utf8_lossy(&out).to_string();
+        let mut v = vec![];
+        for line in text.lines() {
+            let msg: serde_json::Value = match serde_json::from_str(line) { Ok(x) => x, Err(e) => return Some(format!("JSON does not parse: {}", e)) };
+            match msg["type"].as_str() {
+                Some("match") | Some("context") => {
+                    // a message may carry several lines (multi-line blocks): one record per line
+                    let bytes = data_bytes(&msg["data"]["lines"]).unwrap_or_default();
+                    let k = if msg["type"] == "match" { 'M' } else { 'C' };
+                    let first = msg["data"]["line_number"].as_u64().unwrap_or(0);
+                    let cnt = bytes.iter().filter(|&&b| b == b'\n').count().max(1) + if !bytes.ends_with(b"\n") && bytes.contains(&b'\n') { 1 } else { 0 };
+                    for d in 0..cnt as u64 { v.push((k, first + d)); }
+                }
+                _ => {}
+            }
+        }
+        v
+    } else {
+        let mut b = StandardBuilder::new();
+        b.max_matches(Some(n));
+        let mut p = b.build(NoColor::new(vec![]));
+        if searcher.search_slice(&m, input, p.sink(&m)).is_err() { return Some("search failed".into()); }
+        let out = p.into_inner().into_inner();
+        let mut v = vec![];
+        for rec in out.split(|&b| b == b'\n') {
+            if rec.is_empty() { continue; }
+            if rec == b"--" { v.push(('S', 0)); continue; }
+            let digits: Vec<u8> = rec.iter().cloned().take_while(|b| b.is_ascii_digit()).collect();
+            let ln: u64 = String::from_utf8_lossy(&digits).parse().unwrap_or(0);
+            match rec.get(digits.len()) { Some(b':') => v.push(('M', ln)), Some(b'-') => v.push(('C', ln)), _ => return Some(format!("unparsable output record {:?}", String::from_utf8_lossy(rec))) }
+        }
+        v
+    };
+    let want_cmp: Vec<(char, u64)> = if json { want.iter().cloned().filter(|r| r.0 != 'S').collect() } else { want.clone() };
+    if got != want_cmp {
+        return Some(format!("-m {} -A {}: printed records {:?}, the first {} matching lines plus their trailing context are {:?} (M match, C context, S separator; with line numbers)", n, a, got, n, want_cmp));
+    }
+    None
+}
+
+/// C14 ("ripgrep never writes a NUL byte taken from a searched file to its output" unless --text): binary detection
+/// in convert or quit mode, with context, slice and reader strategies: no NUL byte in what the printers write
+fn check_nul(pattern: &str, input: &[u8], mode: u32, multiline: bool, quit: bool, reader: bool, ctx: usize) -> Option<String> {
+    let m = matcher(pattern, multiline)?;
+    let det = if quit { grep_searcher::BinaryDetection::quit(0) } else { grep_searcher::BinaryDetection::convert(0) };
+    let mut searcher = SearcherBuilder::new().line_number(true).multi_line(multiline).binary_detection(det).before_context(ctx).after_context(ctx).build();
+    let out = if mode == 3 {
+        let mut p = JSONBuilder::new().build(vec![]);
+        let r = if reader { searcher.search_reader(&m, input, p.sink(&m)) } else { searcher.search_slice(&m, input, p.sink(&m)) };
+        if r.is_err() { return Some("search failed".into()); }
+        // JSON escapes a NUL as \u0000 or base64: decode every text it reports
+        let out = p.into_inner();
+        let mut all = vec![];
+        for line in String::from_utf8_lossy(&out).lines() {
+            if let Ok(msg) = serde_json::from_str::<serde_json::Value>(line) {
+                if let Some(b) = data_bytes(&msg["data"]["lines"]) { all.extend(b); }
+            }
+        }
+        all
+    } else {
+        let b = StandardBuilder::new();
+        let mut p = b.build(NoColor::new(vec![]));
+        let r = if reader { searcher.search_reader(&m, input, p.sink(&m)) } else { searcher.search_slice(&m, input, p.sink(&m)) };
+        if r.is_err() { return Some("search failed".into()); }
+        p.into_inner().into_inner()
+    };
+    if out.contains(&0) {
+        return Some(format!("binary detection {} / {} strategy / context {}: a NUL byte of the input was written: {:?}", if quit { "quit" } else { "convert" }, if reader { "reader" } else { "slice" }, ctx, String::from_utf8_lossy(&out)));
+    }
+    None
+}
+
 fn hex(b: &[u8]) -> String {
     if b.is_empty() { return "-".to_string(); }
     b.iter().map(|x| format!("{:02x}", x)).collect()
@@ -301,7 +413,76 @@ fn oracle(pi: usize) -> regex::bytes::Regex {
     regex::bytes::RegexBuilder::new(PATTERNS[pi]).multi_line(true).unicode(true).build().unwrap()
 }
 
+fn inputs_over(alpha: &[u8], max: usize) -> Vec<Vec<u8>> {
+    let mut out: Vec<Vec<u8>> = vec![vec![]];
+    let mut cur: Vec<Vec<u8>> = vec![vec![]];
+    for _ in 0..max {
+        let mut next = vec![];
+        for w in &cur { for &b in alpha { let mut v = w.clone(); v.push(b); next.push(v); } }
+        out.extend(next.iter().cloned());
+        cur = next;
+    }
+    out
+}
+
+fn run_suite(suite: &str, maxlen: usize) -> i32 {
+    let ins = if suite == "nul" { inputs_over(&[b'a', b'b', 0, b'\n'], maxlen) } else { inputs_over(&[b'a', b'b', b'\n'], maxlen) };
+    let pats: Vec<usize> = (0..PATTERNS.len()).filter(|&i| i != 6).collect(); // not the 0xFF pattern
+    let next = std::sync::atomic::AtomicUsize::new(0);
+    let best: std::sync::Mutex<Option<(usize, String, String)>> = std::sync::Mutex::new(None);
+    let threads = std::thread::available_parallelism().map(|x| x.get()).unwrap_or(4).min(16);
+    std::thread::scope(|s| {
+        for _ in 0..threads {
+            s.spawn(|| loop {
+                let k = next.fetch_add(1, std::sync::atomic::Ordering::SeqCst);
+                if k >= ins.len() { break; }
+                if let Some(ref b) = *best.lock().unwrap() { if b.0 < k { break; } }
+                let inp = &ins[k];
+                for &pi in &pats {
+                    let re = oracle(pi);
+                    let mut fail: Option<(String, String)> = None;
+                    if suite == "limit" {
+                        // (without -U only: under -U the limit counts delivered blocks, which may hold several adjacent lines)
+                        'l: for json in [false, true] { for ml in [false] { for n in 1..3u64 { for a in 0..2usize {
+                            if let Some(w) = check_limit(PATTERNS[pi], &re, inp, json, ml, n, a) {
+                                fail = Some((w, format!("VERIF_REPLAY_SUITE=limit VERIF_REPLAY_PATTERN={} VERIF_REPLAY_INPUT={} VERIF_REPLAY_JSON={} VERIF_REPLAY_MULTILINE={} VERIF_REPLAY_N={} VERIF_REPLAY_A={}", pi, hex(inp), json as u8, ml as u8, n, a)));
+                                break 'l;
+                            }
+                        }}}}
+                    } else if inp.contains(&0) {
+                        'n: for mode in [0u32] { for ml in [false, true] { for quit in [false, true] { for rd in [false, true] { for ctx in 0..2usize {
+                            if let Some(w) = check_nul(PATTERNS[pi], inp, mode, ml, quit, rd, ctx) {
+                                fail = Some((w, format!("VERIF_REPLAY_SUITE=nul VERIF_REPLAY_PATTERN={} VERIF_REPLAY_INPUT={} VERIF_REPLAY_MODE={} VERIF_REPLAY_MULTILINE={} VERIF_REPLAY_QUIT={} VERIF_REPLAY_READER={} VERIF_REPLAY_CTX={}", pi, hex(inp), mode, ml as u8, quit as u8, rd as u8, ctx)));
+                                break 'n;
+                            }
+                        }}}}}
+                    }
+                    if let Some((w, envline)) = fail {
+                        let mut b = best.lock().unwrap();
+                        if b.as_ref().map_or(true, |o| k < o.0) {
+                            *b = Some((k, format!("FAILING CASE printout/{} pattern={:?} input={:?} (bytes {}): {}", suite, PATTERNS[pi], String::from_utf8_lossy(inp), hex(inp), w), envline));
+                        }
+                        break;
+                    }
+                }
+            });
+        }
+    });
+    match best.into_inner().unwrap() {
+        Some((_, msg, envline)) => { println!("{}", msg); println!("{}", envline); 1 }
+        None => { println!("printout twin suite={} len<={}: all cases agree", suite, maxlen); 0 }
+    }
+}
+
 fn main() {
+    if let Ok(suite) = std::env::var("VERIF_REPLAY_SUITE") {
+        let g = |k: &str| std::env::var(k).ok().and_then(|v| v.parse::<usize>().ok()).unwrap_or(0);
+        let pi = g("VERIF_REPLAY_PATTERN");
+        let inp = unhex(&std::env::var("VERIF_REPLAY_INPUT").unwrap());
+        let r = if suite == "limit" { check_limit(PATTERNS[pi], &oracle(pi), &inp, g("VERIF_REPLAY_JSON") != 0, g("VERIF_REPLAY_MULTILINE") != 0, g("VERIF_REPLAY_N") as u64, g("VERIF_REPLAY_A")) }
+                else { check_nul(PATTERNS[pi], &inp, g("VERIF_REPLAY_MODE") as u32, g("VERIF_REPLAY_MULTILINE") != 0, g("VERIF_REPLAY_QUIT") != 0, g("VERIF_REPLAY_READER") != 0, g("VERIF_REPLAY_CTX")) };
+        match r { Some(w) => { println!("FAILING CASE printout/{} pattern={:?} input={:?}: {}", suite, PATTERNS[pi], String::from_utf8_lossy(&inp), w); std::process::exit(1); } None => { println!("replayed case agrees"); return; } }
+    }
     if let Ok(p) = std::env::var("VERIF_REPLAY_PATTERN") {
         let pi: usize = p.parse().unwrap();
         let input = unhex(&std::env::var("VERIF_REPLAY_INPUT").unwrap());
@@ -313,6 +494,10 @@ fn main() {
         }
     }
     let maxlen: usize = std::env::var("VERIF_PRINT_LEN").ok().and_then(|s| s.parse().ok()).unwrap_or(5);
+    let suite = std::env::var("VERIF_PRINT_SUITE").unwrap_or_default();
+    if suite == "limit" || suite == "nul" {
+        std::process::exit(run_suite(&suite, maxlen));
+    }
     let survey = std::env::var("VERIF_PRINT_ALL").is_ok();
     let ins = inputs(maxlen);
     let items: Vec<(usize, u32, bool)> = (0..PATTERNS.len()).flat_map(|p| (0..4u32).flat_map(move |m| [false, true].into_iter().map(move |u| (p, m, u)))).collect();
